@@ -78,6 +78,9 @@ pub struct MonStats {
 	pub states_awaiting_conf: u64,
 	pub states_pending_claims: u64,
 	pub step_kinds: BTreeMap<String, u64>,
+	pub manager_images: u64,
+	pub manager_live_compared: u64,
+	pub manager_same_len: u64,
 }
 
 /// A harvested object (serialized) for the corruption parts.
@@ -93,13 +96,16 @@ pub struct MonHarvest {
 	img_cur: Vec<usize>,
 	upd_cur: Vec<BTreeMap<ChannelId, usize>>,
 	/// latest exactly-known serialized state per (node, channel)
-	states: BTreeMap<(usize, ChannelId), Vec<u8>>,
+	states: BTreeMap<(usize, ChannelId), (Vec<u8>, Option<Mon>)>,
+	/// every `reread_every`-th image is additionally re-read from its re-encoding (idempotence)
+	pub reread_every: u64,
 	pub stats: MonStats,
 	/// any commitment / closing activity seen in this world (enables the documented in-memory-only-field exemption)
 	pub closure_seen: bool,
 	pub keep: bool,
 	pub kept_monitors: Vec<Harvested>,
 	pub kept_updates: Vec<Harvested>,
+	pub kept_managers: Vec<Harvested>,
 	logger: TestLogger,
 }
 
@@ -111,11 +117,13 @@ impl MonHarvest {
 			img_cur: vec![0; n],
 			upd_cur: vec![BTreeMap::new(); n],
 			states: BTreeMap::new(),
+			reread_every: 4,
 			stats: MonStats::default(),
 			closure_seen: false,
 			keep,
 			kept_monitors: vec![],
 			kept_updates: vec![],
+			kept_managers: vec![],
 			logger: TestLogger::new(),
 		};
 		// channel establishment happened before: skip what was recorded so far, start from the live monitors
@@ -225,9 +233,11 @@ impl MonHarvest {
 				} else {
 					self.stats.byte_unstable_images += 1;
 				}
-				let (r2, _) = read_mon(&b2, keys).map_err(|e| fail("monitor-read", "monitor-read/reencoded".into(), format!("node {} chan {}: re-encoded monitor does not read: {:?}", i, chan, e)))?;
-				if r1 != r2 {
-					return Err(fail("monitor-roundtrip-eq", "monitor-roundtrip-eq/image".into(), format!("node {} chan {} update {}: read(write(read(b))) != read(b)", i, chan, latest)));
+				if self.stats.images % self.reread_every.max(1) == 0 {
+					let (r2, _) = read_mon(&b2, keys).map_err(|e| fail("monitor-read", "monitor-read/reencoded".into(), format!("node {} chan {}: re-encoded monitor does not read: {:?}", i, chan, e)))?;
+					if r1 != r2 {
+						return Err(fail("monitor-roundtrip-eq", "monitor-roundtrip-eq/image".into(), format!("node {} chan {} update {}: read(write(read(b))) != read(b)", i, chan, latest)));
+					}
 				}
 				// (b) update commutes with the round trip
 				if let Some(k) = upd_id {
@@ -236,10 +246,14 @@ impl MonHarvest {
 					let Some(u) = u else {
 						return Err(fail("harness", "harness/update-not-recorded".into(), format!("node {} chan {} update {} persisted but never handed to Watch", i, chan, k)));
 					};
-					match self.states.get(&(i, *chan)) {
+					match self.states.remove(&(i, *chan)) {
 						None => self.stats.commute_no_prev += 1,
-						Some(prev) => {
-							let (shadow, _) = read_mon(prev, keys).map_err(|e| fail("monitor-read", "monitor-read/prev".into(), format!("{:?}", e)))?;
+						Some((prev, cached)) => {
+							// `cached` is read(prev) kept from the previous step
+							let shadow = match cached {
+								Some(m) => m,
+								None => read_mon(&prev, keys).map_err(|e| fail("monitor-read", "monitor-read/prev".into(), format!("{:?}", e)))?.0,
+							};
 							if shadow.get_latest_update_id() + 1 != *k && *k != u64::MAX {
 								// several updates were applied between two persist calls: cannot happen with a
 								// ChainMonitor (one persist call per update)
@@ -279,12 +293,16 @@ impl MonHarvest {
 						},
 					}
 				}
-				self.states.insert((i, *chan), bytes.clone());
+				self.states.insert((i, *chan), (bytes.clone(), Some(r1)));
 			}
 			// live monitors after the operation
 			for chan in nd.chain_monitor.chain_monitor.list_monitors() {
 				let Ok(m) = nd.chain_monitor.chain_monitor.get_monitor(chan) else { continue };
 				let bytes = m.encode();
+				// the same live object encodes to the same bytes as long as it did not change: already checked
+				if self.states.get(&(i, chan)).map(|(b, _)| *b == bytes).unwrap_or(false) {
+					continue;
+				}
 				self.stats.live_snapshots += 1;
 				let nq = self.classify(sim, i, &m);
 				let (m2, left) = read_mon(&bytes, keys).map_err(|e| fail("monitor-read", "monitor-read/live".into(), format!("node {} chan {}: live monitor does not read back: {:?}", i, chan, e)))?;
@@ -307,8 +325,67 @@ impl MonHarvest {
 				if self.keep {
 					self.kept_monitors.push(Harvested { node: i, bytes: bytes.clone(), nonquiescent: nq });
 				}
-				self.states.insert((i, chan), bytes);
+				self.states.insert((i, chan), (bytes, Some(m2)));
 			}
+		}
+		Ok(())
+	}
+
+	/// The node's ChannelManager as it would be written now: it must read back against the node's current
+	/// monitors (themselves read back from their encodings); the re-read object must be a fixed point
+	/// (re-encoding and reading again shows the same channels and payments); and if no peer
+	/// is connected (so that writing implies no further disconnection) the re-read object shows the same
+	/// channels and payments as the live one.
+	pub fn check_manager(&mut self, sim: &Sim, node: usize) -> CaseResult {
+		let nd = &sim.w.nodes[node];
+		let bytes = nd.node.encode();
+		self.stats.manager_images += 1;
+		let mut mons: Vec<&Mon> = vec![];
+		for ((n, _), (_, m)) in self.states.iter() {
+			if *n == node {
+				if let Some(m) = m {
+					mons.push(m);
+				}
+			}
+		}
+		let live_disconnected = (0..sim.w.n).all(|j| j == node || !sim.is_connected(node, j));
+		let live = if live_disconnected { Some(manager_static_surface(nd.node)) } else { None };
+		let r1: Result<(Vec<u8>, Vec<String>, Vec<String>), String> = with_reloaded_manager(sim, node, &bytes, &mons, |res| match res {
+			Err(e) => Err(format!("{:?}", e)),
+			Ok(m) => {
+				let b2 = m.encode();
+				let surf = manager_static_surface(m);
+				// (pending events are not drained here: that would run the start-up background events, which
+				// need the monitors loaded into a ChainMonitor; events are compared in the twin part)
+				let evs: Vec<String> = vec![];
+				Ok((b2, surf, evs))
+			},
+		});
+		let (b2, surf1, evs1) = r1.map_err(|e| fail("manager-read", "manager-read/every-step".into(), format!("node {}: ChannelManager does not read back from its own encoding and current monitors: {}", node, e)))?;
+		if let Some(live) = live {
+			self.stats.manager_live_compared += 1;
+			if live != surf1 {
+				let d = live.iter().zip(surf1.iter()).find(|(x, y)| x != y).map(|(x, y)| format!("live: {} | re-read: {}", x, y)).unwrap_or_else(|| format!("{} vs {} entries", live.len(), surf1.len()));
+				return Err(fail("manager-static", "manager-static/disconnected".into(), format!("node {} (no peer connected): channels / payments differ after write -> read: {}", node, d)));
+			}
+		}
+		if b2.len() == bytes.len() {
+			self.stats.manager_same_len += 1;
+		}
+		let r2: Result<(Vec<String>, Vec<String>), String> = with_reloaded_manager(sim, node, &b2, &mons, |res| match res {
+			Err(e) => Err(format!("{:?}", e)),
+			Ok(m) => {
+				let surf = manager_static_surface(m);
+				let evs: Vec<String> = vec![];
+				Ok((surf, evs))
+			},
+		});
+		let (surf2, evs2) = r2.map_err(|e| fail("manager-read", "manager-read/reencoded".into(), format!("node {}: re-encoded ChannelManager does not read: {}", node, e)))?;
+		if surf1 != surf2 || evs1 != evs2 {
+			return Err(fail("manager-fixed-point", "manager-fixed-point".into(), format!("node {}: read(write(read(b))) shows different channels / payments than read(b)", node)));
+		}
+		if self.keep {
+			self.kept_managers.push(Harvested { node, bytes, nonquiescent: true });
 		}
 		Ok(())
 	}
@@ -347,7 +424,7 @@ impl MonHarvest {
 /// Read `manager_bytes` as node `node`'s ChannelManager against the given monitors, with throw-away chain
 /// monitor / persister / broadcaster, hand it to `f` and drop everything again. The node itself is not
 /// touched.
-pub fn with_reloaded_manager<R>(sim: &Sim, node: usize, manager_bytes: &[u8], monitors: &[Mon], f: impl FnOnce(Result<&SManager, DecodeError>) -> R) -> R {
+pub fn with_reloaded_manager<R>(sim: &Sim, node: usize, manager_bytes: &[u8], monitors: &[&Mon], f: impl FnOnce(Result<&SManager, DecodeError>) -> R) -> R {
 	let nd = &sim.w.nodes[node];
 	let persister = Box::new(TestPersister::new());
 	let bc = Box::new(TestBroadcaster::with_blocks(nd.blocks.clone()));
@@ -359,7 +436,7 @@ pub fn with_reloaded_manager<R>(sim: &Sim, node: usize, manager_bytes: &[u8], mo
 	let cm_ref: &'static TestChainMonitor<'static> = unsafe { &*(&*cm as *const TestChainMonitor<'static>) };
 	let mut channel_monitors = lightning::util::hash_tables::new_hash_map();
 	for m in monitors.iter() {
-		channel_monitors.insert(m.channel_id(), m);
+		channel_monitors.insert(m.channel_id(), *m);
 	}
 	let mut r = manager_bytes;
 	let res = <(BlockLocator, SManager)>::read(
@@ -389,6 +466,22 @@ pub fn with_reloaded_manager<R>(sim: &Sim, node: usize, manager_bytes: &[u8], mo
 	drop(cm);
 	drop(bc);
 	drop(persister);
+	out
+}
+
+/// Channels and recent payments of a manager, rendered and sorted (connection-independent only when the
+/// manager has no connected peer).
+pub fn manager_static_surface(m: &SManager) -> Vec<String> {
+	let mut out = vec![];
+	for mut d in m.list_channels() {
+		d.pending_inbound_htlcs.sort_by_key(|h| h.htlc_id);
+		d.pending_outbound_htlcs.sort_by_key(|h| (h.htlc_id, h.payment_hash.0));
+		out.push(format!("{:?}", d));
+	}
+	for p in m.list_recent_payments() {
+		out.push(format!("{:?}", p));
+	}
+	out.sort();
 	out
 }
 
@@ -437,12 +530,20 @@ pub fn fork_mark(sim: &Sim) -> ForkMark {
 
 /// The public surface of every node. Keys ending in
 /// * `.channels`, `.payments`, `.balances`, `.htlc-msgs` are *state / strict* classes: equal multisets;
-/// * `.events` (since the fork) are compared as multisets, except that the reloaded world may emit again an
-///   event that was already emitted before the fork (`.events-before`): LDK documents that events may be
-///   replayed after a restart and that handling must be idempotent;
-/// * `.bump-events` and `.broadcasts` (since the fork) are compared as sets, and an element present in only
-///   one world is accepted if it already occurred before the fork (`-before`): `BumpTransaction` events are
-///   not persisted but regenerated as needed, and re-broadcasting a transaction is idempotent.
+/// * `.events` (since the fork): nothing the never-reloaded world emits may be missing in the reloaded one
+///   (per distinct rendering: count in reloaded >= count in original). The reloaded world may emit more:
+///   LDK documents that events may be replayed after a restart and that handling must be idempotent, so a
+///   repetition of an event emitted earlier (before or after the fork) is accepted; and on start-up it
+///   re-derives payment resolution events from the monitors of closed channels, which can precede the moment
+///   the running node emits them: extra events of the kinds in [`STARTUP_REPLAY_KINDS`] are accepted and
+///   labelled. Any other extra event is a difference.
+/// * `.broadcasts` (since the fork; transactions without wallet inputs, identified by what they spend) are
+///   compared as sets, and an element present in only one world is accepted if it was already broadcast
+///   before the fork (re-broadcasting is idempotent).
+/// * `.bump-events` and `.bump-broadcasts` (transactions with wallet inputs: CPFP children, externally funded
+///   HTLC claims) are informational: `BumpTransaction` events are by design not persisted ("will only be
+///   regenerated as needed after restarts"), so the running node may still hold one in memory that the
+///   reloaded node no longer needs, and the wallet UTXO chosen depends on handling order.
 pub fn surface(sim: &Sim, mark: &ForkMark) -> Surface {
 	let mut s = Surface::new();
 	for i in 0..sim.w.n {
@@ -473,7 +574,22 @@ pub fn surface(sim: &Sim, mark: &ForkMark) -> Surface {
 			}
 			ins.sort();
 			let key = format!("spends[{}]", ins.join(","));
-			let class = if k < mark.bc_pos[i] { "broadcasts-before" } else { "broadcasts" };
+			// commitment transactions of anchor / zero-fee-commitment channels are broadcast by the user's
+			// BumpTransaction handler, i.e. they follow the (non-persisted) bump events
+			let spends_anchor_funding = tx.input.iter().any(|inp| {
+				sim.chans.iter().any(|c| {
+					c.funding_tx.compute_txid() == inp.previous_output.txid
+						&& inp.previous_output.vout == 0
+						&& c.open.common_fields.channel_type.as_ref().map(|t| t.supports_anchors_zero_fee_htlc_tx() || t.supports_anchor_zero_fee_commitments()).unwrap_or(false)
+				})
+			});
+			let bump = ins.len() < tx.input.len() || spends_anchor_funding;
+			let class = match (bump, k < mark.bc_pos[i]) {
+				(false, true) => "broadcasts-before",
+				(false, false) => "broadcasts",
+				(true, true) => "bump-broadcasts-before",
+				(true, false) => "bump-broadcasts",
+			};
 			push(&mut s, format!("n{}.{}", i, class), key);
 		}
 	}
@@ -526,40 +642,6 @@ fn multiset_minus(a: &[String], b: &[String]) -> Vec<String> {
 	out
 }
 
-/// First difference between the world that kept running (`a`) and the one that reloaded (`b`) under the
-/// rules stated at [`surface`]: (class, unexplained in a only, unexplained in b only)
-pub fn surface_diff(a: &Surface, b: &Surface) -> Option<(String, Vec<String>, Vec<String>)> {
-	let keys: std::collections::BTreeSet<&String> = a.keys().chain(b.keys()).collect();
-	let empty = vec![];
-	for k in keys {
-		if k.ends_with("-before") {
-			continue;
-		}
-		let va = a.get(k).unwrap_or(&empty);
-		let vb = b.get(k).unwrap_or(&empty);
-		if va == vb {
-			continue;
-		}
-		let before_a = a.get(&format!("{}-before", k)).unwrap_or(&empty);
-		let before_b = b.get(&format!("{}-before", k)).unwrap_or(&empty);
-		let (only_a, only_b) = if k.ends_with(".bump-events") || k.ends_with(".broadcasts") {
-			let oa: Vec<String> = va.iter().filter(|x| !vb.contains(x) && !before_a.contains(x)).cloned().collect();
-			let ob: Vec<String> = vb.iter().filter(|x| !va.contains(x) && !before_b.contains(x)).cloned().collect();
-			(oa, ob)
-		} else if k.ends_with(".events") {
-			let oa = multiset_minus(va, vb);
-			let ob: Vec<String> = multiset_minus(vb, va).into_iter().filter(|x| !before_b.contains(x)).collect();
-			(oa, ob)
-		} else {
-			(multiset_minus(va, vb), multiset_minus(vb, va))
-		};
-		if !only_a.is_empty() || !only_b.is_empty() {
-			return Some((k.clone(), only_a, only_b));
-		}
-	}
-	None
-}
-
 /// Remove from a rendered event what legitimately differs between two executions of the same history:
 /// * witness data: LDK signs with auxiliary randomness drawn from the node's entropy source
 ///   (`sign_with_aux_rand`), and the reload consumes a different amount of entropy than the bounce, so
@@ -598,6 +680,57 @@ pub fn normalize_rendered(s: &str) -> String {
 	}
 	out.push_str(rest);
 	out
+}
+
+/// Event kinds LDK re-derives on start-up from the monitors of closed channels / pending claims.
+pub const STARTUP_REPLAY_KINDS: &[&str] = &["PaymentPathSuccessful", "PaymentSent", "PaymentClaimed", "PaymentFailed", "PaymentPathFailed", "PaymentForwarded"];
+
+/// First difference between the world that kept running (`a`) and the one that reloaded (`b`) under the
+/// rules stated at [`surface`]: (class, unexplained in a only, unexplained in b only). `notes` receives labels
+/// for accepted asymmetries.
+pub fn surface_diff(a: &Surface, b: &Surface, notes: &mut Vec<String>) -> Option<(String, Vec<String>, Vec<String>)> {
+	let keys: std::collections::BTreeSet<&String> = a.keys().chain(b.keys()).collect();
+	let empty = vec![];
+	for k in keys {
+		if k.ends_with("-before") {
+			continue;
+		}
+		let va = a.get(k).unwrap_or(&empty);
+		let vb = b.get(k).unwrap_or(&empty);
+		if va == vb {
+			continue;
+		}
+		let before_a = a.get(&format!("{}-before", k)).unwrap_or(&empty);
+		let before_b = b.get(&format!("{}-before", k)).unwrap_or(&empty);
+		let (only_a, only_b) = if k.ends_with(".bump-events") || k.ends_with(".bump-broadcasts") {
+			notes.push(format!("accepted:{}-differ", k.split('.').last().unwrap_or("")));
+			(vec![], vec![])
+		} else if k.ends_with(".broadcasts") {
+			let oa: Vec<String> = va.iter().filter(|x| !vb.contains(x) && !before_a.contains(x)).cloned().collect();
+			let ob: Vec<String> = vb.iter().filter(|x| !va.contains(x) && !before_b.contains(x)).cloned().collect();
+			(oa, ob)
+		} else if k.ends_with(".events") {
+			let oa = multiset_minus(va, vb);
+			let mut ob = vec![];
+			for x in multiset_minus(vb, va) {
+				let kind: String = x.chars().take_while(|c| c.is_alphanumeric()).collect();
+				if before_b.contains(&x) || va.contains(&x) {
+					notes.push(format!("accepted:event-replayed:{}", kind));
+				} else if STARTUP_REPLAY_KINDS.contains(&kind.as_str()) {
+					notes.push(format!("accepted:event-rederived-at-startup:{}", kind));
+				} else {
+					ob.push(x);
+				}
+			}
+			(oa, ob)
+		} else {
+			(multiset_minus(va, vb), multiset_minus(vb, va))
+		};
+		if !only_a.is_empty() || !only_b.is_empty() {
+			return Some((k.clone(), only_a, only_b));
+		}
+	}
+	None
 }
 
 impl Sim {
@@ -674,4 +807,323 @@ impl Sim {
 			}
 		}
 	}
+}
+
+// -------------------------------------------------------------------------------------------------
+// (e) + (f): structural TLV-tail locator, unknown-TLV injection, truncations and byte mutations
+// -------------------------------------------------------------------------------------------------
+
+/// BigSize (BOLT-1) at `b[pos..]`: (value, encoded length); None if truncated or not minimally encoded.
+pub fn read_bigsize(b: &[u8], pos: usize) -> Option<(u64, usize)> {
+	let f = *b.get(pos)?;
+	match f {
+		0..=0xfc => Some((f as u64, 1)),
+		0xfd => {
+			let v = u16::from_be_bytes(b.get(pos + 1..pos + 3)?.try_into().ok()?) as u64;
+			if v < 0xfd {
+				None
+			} else {
+				Some((v, 3))
+			}
+		},
+		0xfe => {
+			let v = u32::from_be_bytes(b.get(pos + 1..pos + 5)?.try_into().ok()?) as u64;
+			if v < 0x1_0000 {
+				None
+			} else {
+				Some((v, 5))
+			}
+		},
+		0xff => {
+			let v = u64::from_be_bytes(b.get(pos + 1..pos + 9)?.try_into().ok()?);
+			if v < 0x1_0000_0000 {
+				None
+			} else {
+				Some((v, 9))
+			}
+		},
+	}
+}
+
+pub fn write_bigsize(v: u64) -> Vec<u8> {
+	if v < 0xfd {
+		vec![v as u8]
+	} else if v < 0x1_0000 {
+		let mut o = vec![0xfd];
+		o.extend_from_slice(&(v as u16).to_be_bytes());
+		o
+	} else if v < 0x1_0000_0000 {
+		let mut o = vec![0xfe];
+		o.extend_from_slice(&(v as u32).to_be_bytes());
+		o
+	} else {
+		let mut o = vec![0xff];
+		o.extend_from_slice(&v.to_be_bytes());
+		o
+	}
+}
+
+/// Parse `b` as a TLV stream with strictly ascending types: the record types, or None.
+pub fn parse_tlv_stream(b: &[u8]) -> Option<Vec<u64>> {
+	let mut pos = 0;
+	let mut types = vec![];
+	while pos < b.len() {
+		let (t, n) = read_bigsize(b, pos)?;
+		pos += n;
+		let (l, n) = read_bigsize(b, pos)?;
+		pos += n;
+		if let Some(last) = types.last() {
+			if t <= *last {
+				return None;
+			}
+		}
+		let end = pos.checked_add(usize::try_from(l).ok()?)?;
+		if end > b.len() {
+			return None;
+		}
+		pos = end;
+		types.push(t);
+	}
+	Some(types)
+}
+
+/// What the harness knows about the top-level tail TLV stream of each object kind (from the `write_tlv_fields!`
+/// list in the source): all types that may occur and types that are always written.
+pub struct TailSpec {
+	pub known: &'static [u64],
+	pub always: &'static [u64],
+}
+
+pub const MONITOR_TAIL: TailSpec = TailSpec { known: &[1, 3, 5, 7, 9, 11, 13, 15, 17, 19, 21, 23, 25, 27, 29, 31, 32, 33, 34, 35, 37, 39, 41], always: &[3, 5, 7, 9, 19, 25, 31] };
+pub const UPDATE_TAIL: TailSpec = TailSpec { known: &[1, 3], always: &[3] };
+pub const MANAGER_TAIL: TailSpec = TailSpec { known: &[1, 2, 3, 4, 5, 6, 7, 8, 9, 10, 11, 13, 14, 15, 17, 19, 21, 23], always: &[1, 3, 5, 7, 9, 11, 15, 21, 23] };
+
+/// Locate the tail TLV stream structurally: positions whose BigSize length equals the remaining length and
+/// whose content parses as an ascending TLV stream with only known types, including the always-written
+/// ones. Returns (position of the length prefix, position of the content) if exactly one position qualifies.
+pub fn locate_tail(b: &[u8], spec: &TailSpec) -> Result<(usize, usize), usize> {
+	let mut found = vec![];
+	for pos in (0..b.len()).rev() {
+		if let Some((l, n)) = read_bigsize(b, pos) {
+			if (pos + n) as u64 + l == b.len() as u64 {
+				if let Some(types) = parse_tlv_stream(&b[pos + n..]) {
+					if types.iter().all(|t| spec.known.contains(t)) && spec.always.iter().all(|t| types.contains(t)) {
+						found.push((pos, pos + n));
+					}
+				}
+			}
+		}
+	}
+	if found.len() == 1 {
+		Ok(found[0])
+	} else {
+		Err(found.len())
+	}
+}
+
+/// Append one record (type, value) to the tail TLV stream located at `tail` and fix the length prefix.
+pub fn inject_tail_record(b: &[u8], tail: (usize, usize), typ: u64, value: &[u8]) -> Vec<u8> {
+	let (lp, cp) = tail;
+	let mut content = b[cp..].to_vec();
+	content.extend_from_slice(&write_bigsize(typ));
+	content.extend_from_slice(&write_bigsize(value.len() as u64));
+	content.extend_from_slice(value);
+	let mut out = b[..lp].to_vec();
+	out.extend_from_slice(&write_bigsize(content.len() as u64));
+	out.extend_from_slice(&content);
+	out
+}
+
+#[derive(Clone, Copy, Debug, PartialEq, Eq)]
+pub enum Kind {
+	Monitor,
+	Update,
+	Manager,
+}
+
+/// Outcome of reading possibly corrupted bytes as an object of `kind`.
+pub enum ReadOutcome {
+	Err(String),
+	Monitor(Mon),
+	Update(ChannelMonitorUpdate),
+	/// static surface and re-encoding of the manager that was read
+	Manager(Vec<String>, Vec<u8>),
+}
+
+pub struct Corruptor<'a> {
+	pub sim: &'a Sim,
+	pub node: usize,
+	pub kind: Kind,
+	/// monitors handed to `ChannelManager::read` (re-read from the node's live monitors)
+	pub mons: Vec<Mon>,
+}
+
+impl<'a> Corruptor<'a> {
+	pub fn new(sim: &'a Sim, node: usize, kind: Kind) -> Corruptor<'a> {
+		let mons = if kind == Kind::Manager { reread_monitors(sim, node) } else { vec![] };
+		Corruptor { sim, node, kind, mons }
+	}
+
+	pub fn tail_spec(&self) -> &'static TailSpec {
+		match self.kind {
+			Kind::Monitor => &MONITOR_TAIL,
+			Kind::Update => &UPDATE_TAIL,
+			Kind::Manager => &MANAGER_TAIL,
+		}
+	}
+
+	pub fn read(&self, b: &[u8]) -> ReadOutcome {
+		let keys = self.sim.w.nodes[self.node].keys_manager;
+		match self.kind {
+			Kind::Monitor => match read_mon(b, keys) {
+				Ok((m, _)) => ReadOutcome::Monitor(m),
+				Err(e) => ReadOutcome::Err(format!("{:?}", e)),
+			},
+			Kind::Update => {
+				let mut r = b;
+				match ChannelMonitorUpdate::read(&mut r) {
+					Ok(u) => ReadOutcome::Update(u),
+					Err(e) => ReadOutcome::Err(format!("{:?}", e)),
+				}
+			},
+			Kind::Manager => {
+				let refs: Vec<&Mon> = self.mons.iter().collect();
+				with_reloaded_manager(self.sim, self.node, b, &refs, |res| match res {
+					Ok(m) => ReadOutcome::Manager(manager_static_surface(m), m.encode()),
+					Err(e) => ReadOutcome::Err(format!("{:?}", e)),
+				})
+			},
+		}
+	}
+
+	/// `a` and `b` were read from two encodings that must denote the same object.
+	pub fn same(&self, a: &ReadOutcome, b: &ReadOutcome) -> bool {
+		match (a, b) {
+			(ReadOutcome::Monitor(x), ReadOutcome::Monitor(y)) => x == y,
+			(ReadOutcome::Update(x), ReadOutcome::Update(y)) => x == y,
+			(ReadOutcome::Manager(x, bx), ReadOutcome::Manager(y, by)) => x == y && same_bytes_modulo_order(bx, by),
+			_ => false,
+		}
+	}
+
+	/// An object that was read from corrupted bytes must itself survive a round trip.
+	pub fn roundtrips(&self, o: &ReadOutcome) -> Result<(), String> {
+		match o {
+			ReadOutcome::Err(_) => Ok(()),
+			ReadOutcome::Monitor(m) => {
+				let b = m.encode();
+				match self.read(&b) {
+					ReadOutcome::Monitor(m2) if m2 == *m => Ok(()),
+					ReadOutcome::Monitor(_) => Err("re-read monitor differs".into()),
+					ReadOutcome::Err(e) => Err(format!("monitor read from corrupted bytes does not read back from its own encoding: {}", e)),
+					_ => Err("?".into()),
+				}
+			},
+			ReadOutcome::Update(u) => {
+				let b = u.encode();
+				match self.read(&b) {
+					ReadOutcome::Update(u2) if u2 == *u => Ok(()),
+					ReadOutcome::Update(_) => Err("re-read update differs".into()),
+					ReadOutcome::Err(e) => Err(format!("update read from corrupted bytes does not read back from its own encoding: {}", e)),
+					_ => Err("?".into()),
+				}
+			},
+			ReadOutcome::Manager(surf, b) => match self.read(b) {
+				ReadOutcome::Manager(s2, _) if s2 == *surf => Ok(()),
+				ReadOutcome::Manager(_, _) => Err("re-read manager shows different channels / payments".into()),
+				ReadOutcome::Err(e) => Err(format!("manager read from corrupted bytes does not read back from its own encoding: {}", e)),
+				_ => Err("?".into()),
+			},
+		}
+	}
+}
+
+#[derive(Default, Clone, Debug)]
+pub struct CorruptStats {
+	pub tail_located: u64,
+	pub tail_ambiguous: u64,
+	pub odd_ok: u64,
+	pub even_err: u64,
+	pub prefixes: u64,
+	pub mutations_err: u64,
+	pub mutations_ok_same: u64,
+	pub mutations_ok_other: u64,
+}
+
+/// Run the corruption oracles (e) and (f) on one harvested encoding.
+/// `cuts`: prefix lengths to try (taken modulo the length); `muts`: (position, xor mask) single-byte mutations.
+pub fn corrupt_object(cx: &Corruptor, bytes: &[u8], odd_value: &[u8], cuts: &[u32], muts: &[(u32, u8)], all_cuts_below: usize, st: &mut CorruptStats) -> CaseResult {
+	let kind = format!("{:?}", cx.kind).to_lowercase();
+	let base = cx.read(bytes);
+	if let ReadOutcome::Err(e) = &base {
+		return Err(fail("corrupt-base-read", format!("{}-read/harvested", kind), format!("harvested {} does not read: {}", kind, e)));
+	}
+	// (e) unknown TLV records in the tail stream
+	match locate_tail(bytes, cx.tail_spec()) {
+		Ok(tail) => {
+			st.tail_located += 1;
+			// odd unknown types: skipped, object unchanged (also when the value is empty / long)
+			for (typ, val) in [(1001u64, odd_value), (0xffff_ffff_ffffu64 | 1, &odd_value[..odd_value.len().min(1)]), (43, &[][..])] {
+				let inj = inject_tail_record(bytes, tail, typ, val);
+				let got = cx.read(&inj);
+				match &got {
+					ReadOutcome::Err(e) => return Err(fail("tlv-odd-unknown", format!("tlv-odd-unknown/{}", kind), format!("{} with unknown odd TLV type {} appended to its tail stream is rejected: {}", kind, typ, e))),
+					_ => {
+						if !cx.same(&base, &got) {
+							return Err(fail("tlv-odd-unknown", format!("tlv-odd-unknown-changed/{}", kind), format!("{} read with unknown odd TLV type {} differs from the one read without", kind, typ)));
+						}
+					},
+				}
+				st.odd_ok += 1;
+			}
+			// even unknown types: rejected
+			for typ in [1000u64, 42, 0xffff_fffe] {
+				let inj = inject_tail_record(bytes, tail, typ, odd_value);
+				if !matches!(cx.read(&inj), ReadOutcome::Err(_)) {
+					return Err(fail("tlv-even-unknown", format!("tlv-even-unknown/{}", kind), format!("{} with unknown even TLV type {} in its tail stream is accepted", kind, typ)));
+				}
+				st.even_err += 1;
+			}
+		},
+		Err(_) => st.tail_ambiguous += 1,
+	}
+	// (f) strict prefixes
+	let mut cut_points: Vec<usize> = if bytes.len() <= all_cuts_below { (0..bytes.len()).collect() } else { cuts.iter().map(|c| *c as usize % bytes.len()).collect() };
+	if bytes.len() > all_cuts_below {
+		// always include the structurally interesting ones: just before / inside the tail stream
+		for d in 1..=8usize {
+			if bytes.len() > d {
+				cut_points.push(bytes.len() - d);
+			}
+		}
+	}
+	cut_points.sort();
+	cut_points.dedup();
+	for cut in cut_points {
+		st.prefixes += 1;
+		if !matches!(cx.read(&bytes[..cut]), ReadOutcome::Err(_)) {
+			return Err(fail("strict-prefix", format!("strict-prefix/{}", kind), format!("the first {} of {} bytes of a {} read successfully", cut, bytes.len(), kind)));
+		}
+	}
+	// (f) single-byte mutations
+	for (pos, xor) in muts {
+		let p = *pos as usize % bytes.len();
+		let mut m = bytes.to_vec();
+		m[p] ^= (*xor).max(1);
+		let got = cx.read(&m);
+		match &got {
+			ReadOutcome::Err(_) => st.mutations_err += 1,
+			_ => {
+				if cx.same(&base, &got) {
+					st.mutations_ok_same += 1;
+				} else {
+					st.mutations_ok_other += 1;
+				}
+				if let Err(e) = cx.roundtrips(&got) {
+					return Err(fail("mutation-roundtrip", format!("mutation-roundtrip/{}", kind), format!("{} byte {} ^ {:#x}: {}", kind, p, xor, e)));
+				}
+			},
+		}
+	}
+	Ok(())
 }
